@@ -181,12 +181,44 @@ def copy_ctor_coverage(run, rule, F, decided_elsewhere=None):
                     by_member[i['name']] = i
                 elif i['t'] == 'base':
                     bases_inited.append(i)
+            body_copies = None
             for f in rec['fields']:
                 if f.get('anon'):
                     continue
                 i = by_member.get(f['n'])
                 src = _source_member(i['e'], pname) if i else None
                 ok = src == f['n']
+                if not ok and src is None and fn.body is not None:
+                    # copied in the constructor body instead: every assignment to the member takes it from the same member of the argument,
+                    # and the member is definitely assigned on every path (a copy made on some paths only is not a copy)
+                    if body_copies is None:
+                        from . import effects as _eff
+                        E_ = _eff.Effects(F)
+                        M_ = _eff.MustWrites(E_)
+                        from . import cfg as _cfg
+                        c_ = _cfg.cfg_of(fn)
+                        must = M_.after(fn, c_, c_.entry)        # of the body alone (member initialisers, also the implicit ones, not counted)
+                        body_copies = {}
+                        for e in ir.all_exprs(fn):
+                            tgt = rhs = None
+                            if e['k'] == 'asg' and e['op'] == '=':
+                                tgt, rhs = e['l'], e['r']
+                            elif e['k'] == 'call' and (e.get('op') == '=' or e.get('m') == 'operator=') and ir.is_expr(e.get('obj')) and len(e.get('args', [])) == 1:
+                                tgt, rhs = e['obj'], e['args'][0]
+                            if tgt is None:
+                                continue
+                            for p_ in E_.lv(tgt, fn):
+                                if len(p_) == 2 and p_[0] == 'this':
+                                    body_copies.setdefault(p_[1], []).append(_source_member(rhs, pname))
+                        body_copies['<must>'] = must
+                    srcs = body_copies.get(f['n'])
+                    if srcs and all(s_ == f['n'] for s_ in srcs):
+                        ok = ('this', f['n']) in body_copies['<must>'] or ('this', f['n'], '*') in body_copies['<must>']
+                        if not ok:
+                            i = {'e': {'k': 'c', 'v': 0, 'n': 'assigned in the body on some paths only'}}
+                    elif srcs:
+                        raise AnalysisBroken('%s %s constructor assigns member %s in its body from something this rule does not recognise' % (
+                            short(rec.get('_tkey') or name), c['ctorkind'], f['n']))
                 n += 1
                 run.ob(rule, '%s %s constructor copies member %s from the same member of its argument' % (
                     short(rec.get('_tkey') or name), c['ctorkind'], f['n']), ok, where=c.get('l'),
